@@ -311,7 +311,9 @@ class BezierPath(BooleanOperationsMixin, SampleMixin, object):
         # Now walk the path
         for seg in segs:
             if seg in newsplitlist:
-                tList = newsplitlist[seg]
+                # Work on a copy: an equal segment further along the path
+                # must be split at the same places
+                tList = list(newsplitlist[seg])
                 while len(tList) > 0:
                     t = tList.pop(0)
                     if t < 1e-8:
